@@ -145,8 +145,13 @@ Proof.
   unfold hrs_le; cbn. lia.
 Qed.
 
+Lemma do_prevote_locked_eq s : hrs_eq s (do_prevote_locked valid me s).
+Proof. unfold do_prevote_locked. brk; apply sign_vote_eq. Qed.
 Lemma do_prevote_eq s : hrs_eq s (do_prevote valid me s).
-Proof. unfold do_prevote. brk; apply sign_vote_eq. Qed.
+Proof.
+  unfold do_prevote. eapply hrs_eq_trans; [|apply do_prevote_locked_eq].
+  destruct (locked s); [|repeat split]. destruct (stale_lock s); repeat split.
+Qed.
 
 Lemma enter_prevote_mono h r s : hrs_le s (enter_prevote valid me h r s).
 Proof.
@@ -291,6 +296,7 @@ Proof.
   destruct (hvs_add vals peer v s) as [s1 added]. cbn in H1.
   destruct (negb added); [apply hrs_eq_le, H1|].
   eapply hrs_le_eq_l; [exact H1|].
+  destruct (step_eqb (rstep s1) SCommit); [apply hrs_refl|].
   destruct (v_type v).
   - (* prevote *)
     set (s2 := match maj_of (get_vs s1 (v_round v) Prevote) with Some b => _ | None => s1 end).
